@@ -372,6 +372,27 @@ pub fn run(rec: &mut Rec, rng: &mut Rng, thorough: bool) {
             block_case(rec, rng, &[l2, b"Accept: text/plain".to_vec(), l1], "custom-pair");
         }
     }
+    // long names, long values, many lines: nothing in the header rules has a length or a count limit of its own
+    for len in [15usize, 16, 17, 18, 31, 32, 33, 63, 64, 65, 127, 128, 129, 255, 256, 257, 600, 3000] {
+        let name = format!("X-{}", "n".repeat(len - 2));
+        let value = "v".repeat(len);
+        block_case(rec, rng, &[format!("{}: short", name).into_bytes()], "long-name");
+        block_case(rec, rng, &[format!("X-Short: {}", value).into_bytes()], "long-value");
+        block_case(rec, rng, &[format!("{}: {}", name, value).into_bytes(), format!("{}: second", name).into_bytes()], "long-both");
+        // a long recognised-looking name: a recognised name followed by more characters is a custom field
+        for rec_name in ["Transfer-Encoding", "Content-Length", "Accept-Encoding", "Expect"] {
+            let longer = format!("{}{}", rec_name, "-x".repeat(len / 2));
+            block_case(rec, rng, &[format!("{}: chunked", longer).into_bytes(), b"Content-Length: 3".to_vec()], "long-lookalike");
+        }
+        // padding of that length around a recognised value
+        block_case(rec, rng, &[format!("Content-Length:{}7{}", " ".repeat(len), " ".repeat(len / 3)).into_bytes()], "long-padding");
+    }
+    for count in [7usize, 16, 17, 32, 33, 64, 65, 100, 128, 129, 255, 256, 257, 400] {
+        let mut lines: Vec<Vec<u8>> = (0..count).map(|k| format!("X-Field-{}: value-{}", k, k).into_bytes()).collect();
+        lines.insert(count / 2, b"Content-Length: 9".to_vec());
+        lines.push(b"Expect: 100-continue".to_vec());
+        block_case(rec, rng, &lines, "many-lines");
+    }
     // random blocks of 0..6 lines
     let n = if thorough { 150000 } else { 6000 };
     for k in 0..n {
